@@ -74,6 +74,12 @@ CMDS = [  # (name, letter, signed?, call(g, v))
     ("set_axis_E", "E", True, lambda g, v: g.set_axis(E=v)),
     ("move_S", "S", False, lambda g, v: g.move(x=1, S=v)),
     ("rapid_J", "J", True, lambda g, v: g.rapid(y=2, J=v)),
+    # "followed by at most one comment", "terminated exactly once": calls that carry free comment text with line breaks in it
+    # (added after seed C08d); what the text may DO is C09, here only the shape of the emitted lines is judged
+    ("move_x_cmt_lf", "X", True, lambda g, v: g.move(x=v, comment="first pass\nsecond line")),
+    ("move_x_cmt_cr", "X", True, lambda g, v: g.move(x=v, comment="a\rb\r\nc")),
+    ("set_axis_x_cmt", "X", True, lambda g, v: g.set_axis(x=v, comment="zero\n here")),
+    ("probe_z_cmt", "Z", True, lambda g, v: g.probe("towards", z=v, comment="touch\r\noff")),
 ]
 
 
